@@ -210,7 +210,9 @@ Qed.
 Lemma t_add_rs : forall z s, rs_ok s ->
   t_add false z s = Ok (zput (skey s) (merge (look z (skey s)) (s_ttl s) (s_data s)) z).
 Proof.
-  intros z s (Hc & Ht & _). unfold t_add. rewrite Hc. cbn [Z.eqb cIN Pos.eqb negb].
+  intros z s (Hc & Ht & _ & Hne & _). unfold t_add.
+  destruct (s_data s) as [|d ds] eqn:Ed; [congruence|]. rewrite <- Ed.
+  rewrite Hc. cbn [Z.eqb cIN Pos.eqb negb].
   apply Z.eqb_neq in Ht. rewrite Ht. cbn [andb]. unfold merge, tmin.
   destruct (look z (skey s)) as [[t0 S0]|]; reflexivity.
 Qed.
